@@ -229,12 +229,30 @@ class Exec:
                 return BOOL(f"({cmps[op]} {x.a[1]} {y.a[1]})")
             if op == "Ne":
                 return BOOL(f"(not (= {x.a[1]} {y.a[1]}))")
+            if op in ("Shr", "Shl"):
+                w2 = y.a[0]
+                amt = y.a[1]
+                if w2 < w:
+                    amt = f"((_ zero_extend {w-w2}) {amt})"
+                elif w2 > w:
+                    amt = f"((_ extract {w-1} 0) {amt})"
+                return BV(w, f"({'bvlshr' if op == 'Shr' else 'bvshl'} {x.a[1]} {amt})")
             if op == "SubWithOverflow":
                 return Val("tuple", [BV(w, f"(bvsub {x.a[1]} {y.a[1]})"), BOOL(f"(bvult {x.a[1]} {y.a[1]})")])
             if op == "AddWithOverflow":
                 s = f"(bvadd {x.a[1]} {y.a[1]})"
                 return Val("tuple", [BV(w, s), BOOL(f"(bvult {s} {x.a[1]})")])
             raise Unsupported(op)
+        mc = re.match(r"(.*) as (\w+) \(IntToInt\)$", rv)
+        if mc:
+            v = self.operand(env, mc.group(1), fn)
+            w2 = INT_W[mc.group(2)]
+            w = v.a[0]
+            if w2 == w:
+                return v
+            if w2 < w:
+                return BV(w2, f"((_ extract {w2-1} 0) {v.a[1]})")
+            return BV(w2, f"((_ zero_extend {w2-w}) {v.a[1]})")
         if rv.startswith("copy ") or rv.startswith("move ") or rv.startswith("const "):
             return self.operand(env, rv, fn)
         if rv.startswith("&"):
@@ -286,6 +304,9 @@ class Exec:
         if m:
             x, y = deref(a[0]), deref(a[1])
             return BV(8, f"(ite (bvult {x.a[1]} {y.a[1]}) {bv(255,8)} (ite (= {x.a[1]} {y.a[1]}) {bv(0,8)} {bv(1,8)}))")
+        if re.match(r"(Rtype|Class|Opcode|Rcode)::to_int$", callee):
+            v = a[0]
+            return v.a[0][0] if v.kind == "struct" else v
         if callee == "core::cmp::Ordering::reverse":
             x = a[0]
             return BV(8, f"(bvneg {x.a[1]})")
